@@ -32,7 +32,7 @@ pub enum Op {
     Flag(usize, bool),
     Flags(u16),
     Prefix(Option<u8>),
-    Interval(Option<u32>),
+    Interval(Option<u64>),
     Iname(Option<String>),
     Admin(Option<String>),
     Reqi(u8),
@@ -60,7 +60,7 @@ pub struct Model {
     pub udp_local: Option<u16>,
     pub flags: u16,
     pub prefix: Option<u8>,
-    pub interval: Option<u32>,
+    pub interval: Option<u64>,
     pub iname: Option<String>,
     pub admin: Option<String>,
     pub reqi: u8,
@@ -111,7 +111,7 @@ pub fn apply(ops: &[Op], remote_addr: SocketAddr) -> Result<(Builder, Model), St
             },
             Op::Interval(i) => {
                 m.interval = *i;
-                b.isi_interval(i.map(|ms| Duration::from_millis(ms as u64)))
+                b.isi_interval(i.map(Duration::from_millis))
             },
             Op::Iname(n) => {
                 m.iname = n.clone();
@@ -170,7 +170,7 @@ pub fn model_isi(m: &Model) -> Isi {
         flags: IsiFlags::from_bits_truncate(m.flags),
         version: 9,
         prefix: m.prefix.map(|c| c as char).unwrap_or('\0'),
-        interval: Duration::from_millis(m.interval.unwrap_or(0) as u64),
+        interval: Duration::from_millis(m.interval.unwrap_or(0)),
         admin: m.admin.clone().unwrap_or_default(),
         iname: m.iname.clone().unwrap_or_else(|| "insim.rs".to_string()),
     }
@@ -233,7 +233,7 @@ fn op_from(s: &str) -> Option<Op> {
             } else if let Some(i) = inner("Prefix(") {
                 Op::Prefix(opt_num(&i)?.map(|v| v as u8))
             } else if let Some(i) = inner("Interval(") {
-                Op::Interval(opt_num(&i)?.map(|v| v as u32))
+                Op::Interval(opt_num(&i)?)
             } else if let Some(i) = inner("Iname(") {
                 Op::Iname(opt_str(&i)?)
             } else if let Some(i) = inner("Admin(") {
@@ -506,7 +506,9 @@ fn op_strategy(with_transport: bool) -> impl Strategy<Value = Op> {
         6 => (0usize..10, any::<bool>()).prop_map(|(i, b)| Op::Flag(i, b)),
         1 => any::<u16>().prop_map(|b| Op::Flags(b & 0x0ffc)),
         1 => prop_oneof![Just(None), (0x21u8..0x7f).prop_map(Some)].prop_map(Op::Prefix),
-        1 => prop_oneof![2 => Just(None), 4 => (0u32..65536).prop_map(Some), 1 => Just(Some(65535u32)), 1 => Just(Some(65536u32)), 1 => (65536u32..4_000_000).prop_map(Some)].prop_map(Op::Interval),
+        1 => prop_oneof![2 => Just(None), 4 => (0u64..65536).prop_map(Some), 1 => Just(Some(65535u64)), 1 => Just(Some(65536u64)), 1 => (65536u64..4_000_000).prop_map(Some),
+            // values a narrowing step would wrap into the 16-bit field
+            1 => (prop::sample::select(vec![16u32, 32, 48, 63]), 1u64..4, 0u64..70_000).prop_map(|(w, k, r)| Some((k << w).saturating_add(r)))].prop_map(Op::Interval),
         1 => text_opt(20).prop_map(Op::Iname),
         1 => text_opt(20).prop_map(Op::Admin),
         1 => any::<u8>().prop_map(Op::Reqi),
